@@ -7,7 +7,7 @@
     text_roundtrip_xml_partial attr_roundtrip_xml_partial
     reread_nostrip reread_strip strip_commutes_escape site_yields_plain markup_add_escapes
     structure_preserved_partial render_stream_ok hole_is_data emit_both_implementations markup_format_site
-    payload_is_data structure_preserved_markup_partial
+    payload_is_data structure_preserved_markup_partial reread_wellnested
     attrs_site_partial attrs_site_none_removes attrs_site_others_untouched attrs_blank_dropped
     script_text_is_raw div_text_is_escaped attr_name_not_escaped pre_keeps_whitespace div_normalises_whitespace
     text_cr_not_recovered_xml attr_lf_not_recovered_xml control_char_not_wellformed_xml
@@ -18,6 +18,7 @@ import Genshi.Lemmas.SubstAttrs
 import Genshi.Lemmas.SubstFmt
 import Genshi.Lemmas.SubstNonInt
 import Genshi.Lemmas.SubstSplice
+import Genshi.Lemmas.SubstNest
 namespace Genshi.Props.C01
 open Genshi.Escape Genshi.Str Genshi.Subst
 
@@ -533,6 +534,17 @@ theorem structure_preserved_markup_partial (m : Method) (T : List Node) (env : E
     (hT : nodesOkM m T = true) (hdom : listOk env T = true) (henv : EnvOk env) :
     readDoc m (serialize m false (renderList env T)) = some (coalesce (expectedList env T)) :=
   (list_sem m T env hT hdom henv).read
+
+/-- **What is re-read is a well-nested forest**: every END closes the innermost open START of the
+    same name and nothing stays open — the element *tree* of the template, not just a sequence of tags. -/
+theorem reread_wellnested (m : Method) (strip : Bool) (T : List Node) (env : Env)
+    (hT : nodesOkB m T = true) (hdom : listOk env T = true) (henv : EnvOk env) :
+    ∃ out, readDoc m (serialize m strip (renderList env T)) = some out ∧ nest [] out = some [] := by
+  refine ⟨_, structure_preserved_partial m strip T env hT hdom henv, ?_⟩
+  have hb := expectedList_balanced m T env hT []
+  cases strip with
+  | false => simpa [nest_coalesce] using hb
+  | true => simpa [nest_coalesceStrip] using hb
 
 /-- **Template data cannot change the structure** (non-interference).  Replace the text of
     every value that is not marked safe — every `str`, the `__str__` of every object, in the
